@@ -551,6 +551,20 @@ theorem inv_step {c : Cfg} (io : Nat → Fault) (st : St) (ev : Ev) (starved : B
     | hup => exact (inv_closeOut io _ (inv_syncBlock io st h)).1
     | term => exact inv_syncBlock io st h
     | stopped => exact inv_finishRun _ (inv_closeOut io _ (inv_syncBlock io st h)).1
+    | ext p data =>
+      simp only []
+      by_cases hp : (st.fs.get p).isSome = true
+      · rw [if_pos hp]; exact h
+      · rw [if_neg hp]
+        have hfree : st.fs.get p = none := by simpa using hp
+        refine ⟨fun m hm => DurS_set_new hfree (h.fin m hm), ?_, h.wd⟩
+        intro hr' m hm
+        cases h.pend hr' m hm with
+        | inl hd => exact Or.inl (DurS_set_new hfree hd)
+        | inr hw =>
+          obtain ⟨h1, h2, f, hf, hw0⟩ := hw
+          have hne : st.outPath ≠ p := by intro e; rw [e, hfree] at hf; cases hf
+          exact Or.inr ⟨h1, h2, f, by rw [get_set_ne _ _ _ _ hne]; exact hf, hw0⟩
 
 theorem inv_run {c : Cfg} (io : Nat → Fault) (evs : List (Ev × Bool)) (st : St) (h : Inv c st) :
     Inv c (run c io st evs) := by
